@@ -655,6 +655,15 @@ func (x *Exec) Choices() []int {
 	return out
 }
 
+// Site strings are "file:line|expression|function". SiteStable drops the line number.
+func SiteStable(site string) string {
+	parts := strings.SplitN(site, "|", 3)
+	if len(parts) < 3 {
+		return site
+	}
+	return parts[1] + "@" + parts[2]
+}
+
 func KindName(k int) string {
 	switch k {
 	case -1:
